@@ -16,6 +16,7 @@ import (
 	"os"
 	"strings"
 	"sync"
+	"time"
 
 	"ssvharness/internal/common"
 	. "ssvharness/internal/sstream"
@@ -175,13 +176,26 @@ func oracle(c Case, o Obs) (string, string) {
 	}
 	rfixed := c.Cfg.RespPrefix.Len + c.Cfg.KeyLen + 11 + c.Cfg.KeyLen + TagSize
 	if !c.Cfg.AllowSeg && o.CFirstSeg < rfixed && len(c.S2CStream()) > 0 {
-		if len(o.COps) > 0 && (o.COps[0].Err == "first-read") && len(o.COps[0].Bytes) == 0 {
+		// outside the statement's admissible transports: the client must refuse. Read deadlines scripted
+		// at offset 0 (nothing of the response consumed) are reported first, one call each.
+		ops := o.COps
+		for _, t := range o.S2CTouts {
+			if t == 0 && len(ops) > 0 && ops[0].Err == "timeout" && len(ops[0].Bytes) == 0 {
+				ops = ops[1:]
+			}
+		}
+		if len(ops) == 0 {
 			return "", ""
 		}
-		if len(o.COps) == 0 {
+		if ops[0].Err == "first-read" && len(ops[0].Bytes) == 0 {
+			for _, op := range ops[1:] {
+				if len(op.Bytes) > 0 {
+					return "segmented-response-data-after-refusal", fmt.Sprintf("%s delivered %d bytes after the segmented response header was refused", op.Op.Kind, len(op.Bytes))
+				}
+			}
 			return "", ""
 		}
-		return "segmented-response-not-refused", fmt.Sprintf("first segment %d < %d: %s", o.CFirstSeg, rfixed, o.COps[0].Err)
+		return "segmented-response-not-refused", fmt.Sprintf("first segment %d < %d: %s", o.CFirstSeg, rfixed, ops[0].Err)
 	}
 	return streamOracle("s2c", c.S2CStream(), 0, o.COps, c.SinkStarted, o.S2CTouts, c.S2CTout.Mode == "mid")
 }
@@ -418,10 +432,14 @@ func sig(c Case) string {
 }
 
 type result struct {
-	c   Case
-	obs Obs
-	sc  Script
+	c       Case
+	obs     Obs
+	sc      Script
+	stalled bool
 }
+
+// stallLimit: a session normally takes milliseconds (1 MiB payloads: < 1 s).
+const stallLimit = 15 * time.Second
 
 func evalCases(cases []Case, o *common.Options, rep *common.Report, probe bool) error {
 	res := make([]result, len(cases))
@@ -433,8 +451,16 @@ func evalCases(cases []Case, o *common.Options, rep *common.Report, probe bool) 
 		go func() {
 			defer wg.Done()
 			defer func() { <-sem }()
-			obs, sc := Run(c, 0)
-			res[i] = result{c, obs, sc}
+			// The sessions carry real timestamps (validated against time.Now() within ±30 s by the code under
+			// test): a session during which the machine stalled is not an answer of the implementation.
+			for attempt := 0; attempt < 3; attempt++ {
+				t0 := time.Now()
+				obs, sc := Run(c, 0)
+				res[i] = result{c, obs, sc, time.Since(t0) > stallLimit}
+				if !res[i].stalled {
+					break
+				}
+			}
 		}()
 	}
 	wg.Wait()
@@ -478,6 +504,11 @@ func evalCases(cases []Case, o *common.Options, rep *common.Report, probe bool) 
 	}
 	for i, r := range res {
 		c, obs := r.c, r.obs
+		if r.stalled {
+			rep.Count("infrastructure:session-stalled(skipped)")
+			rep.Note("case %d took more than %s of wall time three times in a row (machine stalled); not evaluated", i, stallLimit)
+			continue
+		}
 		total := len(c.C2SStream()) + len(c.S2CStream())
 		nontrivial := obs.HandleKind == "request" && total > 0 && len(obs.SOps)+len(obs.COps) > 0
 		rep.Case(sig(c), nontrivial)
